@@ -1,7 +1,7 @@
 (* C10 -- error reports are in bounds, not before consumed input, and truthful. Statements only. *)
 From Coq Require Import List NArith.
 From PT Require Import Model.Base Model.Stack Model.Texpr Model.Sem Model.Tracker.
-From PT Require Import Proofs.TrackerProofs Proofs.ErrorLocation.
+From PT Require Import Proofs.TrackerProofs Proofs.ErrorLocation Proofs.CheckParse Proofs.TraceSound.
 Import ListNotations.
 
 (* the reported location is never before the starting cursor (boundary / upper bound: C09_error_location) *)
@@ -30,3 +30,127 @@ Theorem C10_location : forall E fuel r pos t st st'',
     pos' <= t_position (run_tracker (i_start (e_inp E)) (tr st'')).
 Proof. exact rejected_full_parse_location. Qed.
 Print Assumptions C10_location.
+
+(* ---- trace soundness: the events the tracker is fed are backed by real runs (Proofs/TraceSound.v) ---- *)
+(* C10 (truthfulness w.r.t. the grammar) -- to be merged into Properties/C10.v by its owner.
+   Needs in the Require block:  From PT Require Import Proofs.TraceSound.
+   Definitions used (all in Proofs/TraceSound.v):
+     verdict r        = Some true (Ok) / Some false (Fail) / None (Panic, Fuel)
+     final r          = Some st' for Ok _ st' and Fail st', None otherwise
+     justified E ev   = for ev = EExit r p ok:
+                          exists fuel inh st1,
+                            verdict (tcheck E fuel inh (r_body (e_rules E r)) p (ev (EEnter r p) st1)) = Some ok
+                        True for every other event
+     justified_eoi E ev = for ev = EExit r p ok: r = e_eoi E /\ i_at_end (e_inp E) p = ok; True otherwise
+     justified_top E ev = justified E ev \/ justified_eoi E ev
+     rule_outcome E r p ok = (r = e_eoi E /\ i_at_end (e_inp E) p = ok) \/
+                             exists fuel inh st1, verdict (tcheck ... r ... p (ev (EEnter r p) st1)) = Some ok *)
+
+(* a terminated run only adds events at the head of the trace *)
+Theorem C10_trace_extends_parse : forall E fuel inh e pos st st',
+  (exists a, tparse E fuel inh e pos st = Ok a st') \/ tparse E fuel inh e pos st = Fail st' ->
+  exists new, tr st' = new ++ tr st.
+Proof. exact trace_extends_parse. Qed.
+Print Assumptions C10_trace_extends_parse.
+
+Theorem C10_trace_extends_check : forall E fuel inh e pos st st',
+  (exists a, tcheck E fuel inh e pos st = Ok a st') \/ tcheck E fuel inh e pos st = Fail st' ->
+  exists new, tr st' = new ++ tr st.
+Proof. exact trace_extends_check. Qed.
+Print Assumptions C10_trace_extends_check.
+
+(* every exit event a run logs (all constructs, both paths) is backed by the verdict of the rule's body run
+   at that position in the state in which the rule was tried *)
+Theorem C10_trace_sound : forall E fuel inh e pos st st',
+  final (tparse E fuel inh e pos st) = Some st' ->
+  exists new, tr st' = new ++ tr st /\ Forall (justified E) new.
+Proof. exact trace_sound_parse. Qed.
+Print Assumptions C10_trace_sound.
+
+Theorem C10_trace_sound_check : forall E fuel inh e pos st st',
+  final (tcheck E fuel inh e pos st) = Some st' ->
+  exists new, tr st' = new ++ tr st /\ Forall (justified E) new.
+Proof. exact trace_sound_check. Qed.
+Print Assumptions C10_trace_sound_check.
+
+(* entry points: the whole trace *)
+Theorem C10_try_parse_partial_sound : forall E fuel r st',
+  final (try_parse_partial E fuel r) = Some st' -> Forall (justified E) (tr st').
+Proof. exact try_parse_partial_sound. Qed.
+Print Assumptions C10_try_parse_partial_sound.
+
+Theorem C10_try_check_partial_sound : forall E fuel r st',
+  final (try_check_partial E fuel r) = Some st' -> Forall (justified E) (tr st').
+Proof. exact try_check_partial_sound. Qed.
+Print Assumptions C10_try_check_partial_sound.
+
+(* full entry points: additionally the exit event of the EOI attempt, justified by the end-of-input test *)
+Theorem C10_try_parse_sound : forall E fuel r st',
+  final (try_parse E fuel r) = Some st' -> Forall (justified_top E) (tr st').
+Proof. exact try_parse_sound. Qed.
+Print Assumptions C10_try_parse_sound.
+
+Theorem C10_try_check_sound : forall E fuel r st',
+  final (try_check E fuel r) = Some st' -> Forall (justified_top E) (tr st').
+Proof. exact try_check_sound. Qed.
+Print Assumptions C10_try_check_sound.
+
+(* the report of a rejected full parse: every rule listed as expected fails to match at the reported position
+   in a context it was tried in (or is the EOI pseudo-rule and the position is not the end of the input);
+   every rule listed as unexpected matches there *)
+Theorem C10_report_truthful : forall E fuel r st',
+  try_parse E fuel r = Fail st' ->
+  forall en, In en (t_attempts (run_tracker (i_start (e_inp E)) (tr st'))) ->
+    (forall r', In r' (te_pos en) ->
+       (r' = e_eoi E /\ i_at_end (e_inp E) (t_position (run_tracker (i_start (e_inp E)) (tr st'))) = false) \/
+       (exists fuel' inh' st1,
+          verdict (tcheck E fuel' inh' (r_body (e_rules E r'))
+                     (t_position (run_tracker (i_start (e_inp E)) (tr st')))
+                     (ev (EEnter r' (t_position (run_tracker (i_start (e_inp E)) (tr st')))) st1)) = Some false)) /\
+    (forall r', In r' (te_neg en) ->
+       (r' = e_eoi E /\ i_at_end (e_inp E) (t_position (run_tracker (i_start (e_inp E)) (tr st'))) = true) \/
+       (exists fuel' inh' st1,
+          verdict (tcheck E fuel' inh' (r_body (e_rules E r'))
+                     (t_position (run_tracker (i_start (e_inp E)) (tr st')))
+                     (ev (EEnter r' (t_position (run_tracker (i_start (e_inp E)) (tr st')))) st1)) = Some true)).
+Proof. exact report_truthful. Qed.
+Print Assumptions C10_report_truthful.
+
+Theorem C10_report_truthful_check : forall E fuel r st',
+  try_check E fuel r = Fail st' ->
+  forall en, In en (t_attempts (run_tracker (i_start (e_inp E)) (tr st'))) ->
+    (forall r', In r' (te_pos en) ->
+       rule_outcome E r' (t_position (run_tracker (i_start (e_inp E)) (tr st'))) false) /\
+    (forall r', In r' (te_neg en) ->
+       rule_outcome E r' (t_position (run_tracker (i_start (e_inp E)) (tr st'))) true).
+Proof. exact report_truthful_check. Qed.
+Print Assumptions C10_report_truthful_check.
+
+(* sharper for the unexpected list of a rejected full parse: no EOI alternative is needed *)
+Theorem C10_report_unexpected_matches : forall E fuel r st',
+  try_parse E fuel r = Fail st' ->
+  forall en, In en (t_attempts (run_tracker (i_start (e_inp E)) (tr st'))) ->
+  forall r', In r' (te_neg en) ->
+    exists fuel' inh' st1,
+      verdict (tcheck E fuel' inh' (r_body (e_rules E r'))
+                 (t_position (run_tracker (i_start (e_inp E)) (tr st')))
+                 (ev (EEnter r' (t_position (run_tracker (i_start (e_inp E)) (tr st')))) st1)) = Some true.
+Proof. exact report_unexpected_matches. Qed.
+Print Assumptions C10_report_unexpected_matches.
+
+Theorem C10_report_unexpected_matches_check : forall E fuel r st',
+  try_check E fuel r = Fail st' ->
+  forall en, In en (t_attempts (run_tracker (i_start (e_inp E)) (tr st'))) ->
+  forall r', In r' (te_neg en) ->
+    exists fuel' inh' st1,
+      verdict (tcheck E fuel' inh' (r_body (e_rules E r'))
+                 (t_position (run_tracker (i_start (e_inp E)) (tr st')))
+                 (ev (EEnter r' (t_position (run_tracker (i_start (e_inp E)) (tr st')))) st1)) = Some true.
+Proof. exact report_unexpected_matches_check. Qed.
+Print Assumptions C10_report_unexpected_matches_check.
+
+(* [justified] is not vacuous: a rule whose body is AlwaysFail can never be logged as matched *)
+Theorem C10_justified_discriminates : forall E r p,
+  r_body (e_rules E r) = TFail -> ~ justified E (EExit r p true).
+Proof. exact justified_discriminates. Qed.
+Print Assumptions C10_justified_discriminates.
